@@ -300,3 +300,4 @@ M("C19", "C19.enabled", _IV, "        try:\n            self._agent = agent  # i
 RF("C19", _IV, "                choice = Options(enabled)\n            return choice", "                return Options(enabled)\n            return choice", "c19-rf-return-options-directly")
 M("C20", "C20.adjacent", "src/scenic/formats/opendrive/xodr_parser.py", "            for section in lane.sections:\n                adj.extend(sec.lane for sec in section.adjacentLanes)", "            for section in lane.sections[:1]:\n                adj.extend(sec.lane for sec in section.adjacentLanes)", "c20-lane-adjacency-first-section")
 M("C20", "C20.cover", "src/scenic/formats/opendrive/xodr_parser.py", "            laneRegion=combine(lanes),", "            laneRegion=combine(lanes),\n            drivableRegion=PolygonalRegion(polygon=self.drivable_region),", "c20-drivable-includes-gaps")
+M("C15", "C15.sinks", _SI, "            self.agents += [\n                obj for obj in self.objects if obj.behavior and obj not in self.agents\n            ]", "            self.agents += list({obj for obj in self.objects if obj.behavior} - set(self.agents))", "c15-agents-from-set")
